@@ -11,7 +11,9 @@ import OfxModel.Drv.Parser
 import OfxModel.Drv.Purity
 import OfxModel.Drv.Serialize
 import OfxModel.Drv.Types
+import OfxModel.Drv.DocValues
+import OfxModel.Drv.IniText
 
 namespace Ofx.Drv
-def handlers : List Handler := [SecId.handle, Ofx.Drv.Agg.handle, Ofx.Drv.Pipeline.handle, Ofx.Drv.Client.handle, Ofx.Drv.Compose.handle, Ofx.Drv.DateTime.handle, Ofx.Drv.Getattr.handle, Ofx.Drv.Header.handle, Ofx.Drv.Ofxget.handle, Ofx.Drv.Parser.handle, Ofx.Drv.Purity.handle, Ofx.Drv.Serialize.handle, Ofx.Drv.Types.handle]
+def handlers : List Handler := [SecId.handle, Ofx.Drv.Agg.handle, Ofx.Drv.Pipeline.handle, Ofx.Drv.Client.handle, Ofx.Drv.Compose.handle, Ofx.Drv.DateTime.handle, Ofx.Drv.Getattr.handle, Ofx.Drv.Header.handle, Ofx.Drv.Ofxget.handle, Ofx.Drv.Parser.handle, Ofx.Drv.Purity.handle, Ofx.Drv.Serialize.handle, Ofx.Drv.Types.handle, Ofx.Drv.DocValues.handle, Ofx.Drv.IniText.handle]
 end Ofx.Drv
